@@ -198,6 +198,24 @@ def chunk_list_bounds(rep, r5, m):
     reallocs = [c_ for c_ in walk(ex.body) if c_["kind"] == "CallExpr" and callee_ref(c_) in ("cmi_realloc", "realloc")]
     if grew and not reallocs:
         okg, why = False, "the length grows without a reallocation of the list"
+    # the reallocation is given the NEW length (in elements times the pointer size): the count, or the old length, would
+    # leave the list as short as it was while the stored length says it grew
+    len_stores = [(l_, r_, k_, n_) for l_, r_, k_, n_ in inv.stores(ex) if ex_x.canon(l_) == lenk]
+    for c_ in reallocs:
+        size = ex_x.canon(kids(c_)[-1])
+        mm_ = re.fullmatch(r"\((.+) \* sizeof\(void \*\)\)|\(sizeof\(void \*\) \* (.+)\)", size)
+        cnt_txt = (mm_.group(1) or mm_.group(2)) if mm_ else None
+        good = False
+        for l_, r_, k_, n_ in len_stores:
+            if cnt_txt == lenk and inv.executes_before(ex, n_, c_):
+                good = True                       # the field, after it was raised
+            if r_ is not None and k_ == "=" and cnt_txt == ex_x.canon(r_):
+                good = True                       # the same new value that is stored into the field
+            if k_ == "+=" and r_ is not None and cnt_txt == "(%s + %s)" % (lenk, ex_x.canon(r_)) and not inv.executes_before(ex, n_, c_):
+                good = True
+        if reallocs and grew and not good:
+            okg, why = False, ("the list is reallocated with '%s' elements, which is not the new length stored in %s"
+                               % (cnt_txt or size, lenk))
     rep.sample({"rule": getattr(r5, "id", "R-C20-5"), "paths": [{"cnt": p_.state[cntk].show(), "len": p_.state[lenk].show(), "facts": p_.facts.notes} for p_ in paths]})
     if not okg:
         rep.finding(r5, ex.name, "chunk-list:bounds", "the chunk list slot written is not provably inside the list on every path: "
